@@ -145,7 +145,7 @@ def assumptions(props_vo, names, workdir):
         if "Closed under the global context" in txt:
             out[n] = []
         else:
-            out[n] = re.findall(r"^(\S+)\s*:", txt, flags=re.M)
+            out[n] = [a for a in re.findall(r"^([A-Za-z_][\w.']*)\s*:", txt, flags=re.M) if a != "Axioms"]
     return out
 
 
